@@ -4,7 +4,7 @@ from collections import Counter
 from hypothesis import strategies as st
 
 from vlib import rng
-from vlib.runner import Violation, call
+from vlib.runner import Violation, call, clone_point
 
 PID = "C08"
 RULE = ("Hypothesis-generated clique covers: V <= 12 (quick) / 25 vertices numbered from 0 or 1, every vertex covered, "
@@ -160,6 +160,14 @@ def check(case):
         classes.add("cover_replaced_through_setter")
     else:
         ld = call("construct", JointDegreeCover, {JN.COVER: cover})
+    ld = clone_point(ld, case)
+    # a shallow copy of the loader re-pointed at another cover and re-tabulated is a loader of its own: the first one
+    # keeps its distribution
+    import copy as _copy
+    twin = _copy.copy(ld)
+    twin.cover = [[base + i for i in range(5)], [base + 4, base + 5]]
+    twin.motif_sizes = [2, 5]
+    call("create_jdd-on-a-copy", twin.create_jdd)
     # a second loader, for an unrelated cover with other clique sizes, is built in the same process and kept alive:
     # what the first one reports and samples is its own business
     other = call("construct-second-loader", JointDegreeCover,
